@@ -214,8 +214,12 @@ class UpnpEventHandler:
             and "Second-" in response_headers["timeout"]
         ):
             response_timeout = response_headers["timeout"]
-            timeout_seconds = int(response_timeout[7:])  # len("Second-") == 7
-            timeout = timedelta(seconds=timeout_seconds)
+            try:
+                timeout_seconds = int(response_timeout[7:])  # len("Second-") == 7
+                timeout = timedelta(seconds=timeout_seconds)
+            except (ValueError, OverflowError):
+                # The subscription was granted; keep the requested timeout.
+                _LOGGER.debug("Ignoring invalid TIMEOUT: %s", response_timeout)
 
         sid: ServiceId = response_headers["sid"]
         self._subscriptions[sid] = service
@@ -267,8 +271,12 @@ class UpnpEventHandler:
             and "Second-" in response_headers["timeout"]
         ):
             response_timeout = response_headers["timeout"]
-            timeout_seconds = int(response_timeout[7:])  # len("Second-") == 7
-            timeout = timedelta(seconds=timeout_seconds)
+            try:
+                timeout_seconds = int(response_timeout[7:])  # len("Second-") == 7
+                timeout = timedelta(seconds=timeout_seconds)
+            except (ValueError, OverflowError):
+                # The subscription was granted; keep the requested timeout.
+                _LOGGER.debug("Ignoring invalid TIMEOUT: %s", response_timeout)
 
         self._subscriptions[sid] = service
         _LOGGER.debug("Got SID: %s, timeout: %s", sid, timeout)
